@@ -148,11 +148,18 @@ def resolve_splits(e):
     """`x.split_at_mut(n).0[i]` is `x[i]` and `.1[i]` is `x[n + i]` (the two halves alias the
     original storage): lets a recurrence be recognised after a borrow-splitting refactor"""
     def f(n):
+        # (S.first() / first_mut() as Some).0 is S[0]
+        if n[0] == "field" and n[2] == "0" and n[1][0] == "variant" and n[1][2] == "Some" and n[1][1][0] == "call" \
+                and n[1][1][1].rsplit("::", 1)[-1] in ("first", "first_mut") and "<impl [T]>" in n[1][1][1] and len(n[1][1][2]) == 1:
+            m = ("idx", n[1][1][2][0], ("c", 0, "i", None))
+            return f(m) or m
         if n[0] == "idx" and n[1][0] == "field" and n[1][2] in ("0", "1"):
             c = n[1][1]
             if c[0] == "call" and SPLIT_AT.match(c[1]) and len(c[2]) == 2:
                 if n[1][2] == "0":
                     return ("idx", c[2][0], n[2])
+                if n[2][0] == "c" and n[2][1] == 0:
+                    return ("idx", c[2][0], c[2][1])
                 return ("idx", c[2][0], ("bin", "Add", c[2][1], n[2]))
         return None
     return rewrite(e, f)
@@ -208,3 +215,28 @@ def enumerate_as_range(e):
                     return k if n[2] == "0" else ("idx", x, k)
         return None
     return rewrite(e, f)
+
+
+def prefix_slices(e):
+    """`x[..n][k]` is `x[k]` and `len(x[..n])` is `n` (when the slice exists at all - taking it is a
+    panic site of its own, judged by the ledgers): lets an element rule see through a prefix taken
+    before a loop"""
+    def pre(x):
+        if x[0] == "call" and x[1].endswith("::index") and len(x[2]) == 2 and x[2][1][0] == "agg" and x[2][1][1].endswith("RangeTo::RangeTo") and x[2][1][2]:
+            return x[2][0], x[2][1][2][0]
+        if x[0] == "idx" and x[2][0] == "agg" and x[2][1].endswith("RangeTo::RangeTo") and x[2][2]:
+            return x[1], x[2][2][0]
+        return None
+
+    def f(n):
+        if n[0] == "len":
+            r = pre(n[1])
+            if r:
+                return r[1]
+        if n[0] == "idx" and n[2][0] != "agg":
+            r = pre(n[1])
+            if r:
+                return ("idx", r[0], n[2])
+        return None
+    return rewrite(e, f)
+
